@@ -157,7 +157,7 @@ def bform(r):
 
 def hform(r):
     # atoms derived only through head formulas (not free in the base program), so that minimal derivation is visible
-    a = lambda: r.choice(["r(X)", "s(X)", "r(X+1)", "-r(X)", "r(X)", "s(X)"])
+    a = lambda: r.choice(["r(X)", "s(X)", "r(X+1)", "-r(X)", "r(X)", "s(X)", "r(X-2+1)", "s(X+1-1)", "r(X-1-1+2)", "s(3-X-1)", "r((X,1))"])
     k = r.random()
     if k < 0.3:
         return "X %s %s" % (r.choice([">", ">:"]), a())
@@ -167,7 +167,7 @@ def hform(r):
         return "%s %s" % (r.choice([">?", ">*", "~", ">", ">>"]), a())
     if k < 0.85:
         return "%s (X %s %s)" % (r.choice([">?", ">*", ">>", "s(X) >?", "s(X) >*"]), r.choice([">", ">:"]), a())
-    return "X+1 > (%s | %s)" % (a(), a())
+    return "%s > (%s | %s)" % (r.choice(["X+1", "X-1+1", "X+1-1", "3-X-1"]), a(), a())
 
 def rule(r):
     part = r.choice(PARTS)
